@@ -305,12 +305,12 @@ REGISTRY = {
     "C09": {"run": c09, "level": "proof", "floors": {"ivstate.export-public": 12, "ivstate.resume": 14, "ctr.resume": 6, "buf.state": 4}},
     "C10": {"run": c10, "level": "proof", "floors": {"pos.get": 7, "pos.set": 7, "pos.counter-type": 7, "pos.core": 12}},
     "C11": {"run": c11, "level": "other", "floors": {"rem.exact": 7, "ctr.ks.advance": 6, "belt.ks.advance": 1, "wrapper.check-dominates": 3, "rem.ofb-unbounded": 1}},
-    "C12": {"run": c12, "level": "proof", "floors": {"alias.same.out": 86, "alias.no-old-output": 87}},
-    "C13": {"run": c13, "level": "proof", "floors": {"cts.no-panic": 72, "cts.gate.exact": 12, "cts.gate.no-side-effect": 12, "b2b": 100, "ivsize": 21, "panic.site-covered": 30}},
-    "C14": {"run": c14, "level": "proof", "floors": {"cts.layout": 36, "buf.def": 12, "buf.init": 2, "ofb.one-backend": 1, "ofb.same-function": 2, "alias.wrapper": 8, "keyinit.blanket": 21}},
+    "C12": {"run": c12, "level": "proof", "floors": {"alias.same.out": 70, "alias.no-old-output": 70}},
+    "C13": {"run": c13, "level": "proof", "floors": {"cts.no-panic": 72, "cts.gate.exact": 12, "cts.gate.no-side-effect": 12, "b2b": 80, "ivsize": 18, "panic.site-covered": 30}},
+    "C14": {"run": c14, "level": "proof", "floors": {"cts.layout": 36, "buf.def": 12, "buf.init": 2, "ofb.one-backend": 1, "ofb.same-function": 2, "alias.wrapper": 8, "keyinit.blanket": 18}},
     "C15": {"run": c15, "level": "proof", "floors": {"dep.kind": 24, "ctr.ks.data-independent": 6}},
-    "C16": {"run": c16, "level": "proof", "floors": {"own.fields-by-value": 62, "own.clone-fieldwise": 58, "own.no-std": 18, "own.no-unsafe": 18, "own.calls-allow-listed": 18, "control.own": 5}},
-    "C17": {"run": c17, "level": "other", "floors": {"leak.debug-opaque": 66, "leak.alias-debug-opaque": 16, "leak.zeroize-field": 24, "control.leak": 5}},
+    "C16": {"run": c16, "level": "proof", "floors": {"own.fields-by-value": 50, "own.clone-fieldwise": 46, "own.no-std": 18, "own.no-unsafe": 18, "own.calls-allow-listed": 18, "control.own": 5}},
+    "C17": {"run": c17, "level": "other", "floors": {"leak.debug-opaque": 54, "leak.alias-debug-opaque": 16, "leak.zeroize-field": 24, "control.leak": 5}},
 }
 for _k, _v in REGISTRY.items():
     _v.setdefault("explanation", PROOF_NOTE)
